@@ -37,6 +37,11 @@ func main() {
 		st := NewStats(prop, tier, seed)
 		r := &Rng{s: seed*0x9E3779B97F4A7C15 + 0x1234567}
 		fmt.Fprintf(out, "transcript %s %s %d\n", prop, tier, seed)
+		if prop == "C16" {
+			// the very first calls of the bit-depth functions in this process come from many goroutines at once
+			// (tables built on first use behind a flag that is set too early are read half-built only then)
+			c16Concurrent(&Kern{out, st}, r, "cold")
+		}
 		runCorpus(prop, out, st)
 		func() {
 			// the generators assume what the properties promise (e.g. capacity >= length); when the
@@ -77,6 +82,7 @@ func gen(prop, tier string, r *Rng, out *bufio.Writer, st *Stats) {
 		genChLen(g, r, tier, 1)
 		genHugeRW(g, r, tier)
 		genStripedAliased(w, r, tier)
+		genStripedWide(w, r, tier)
 	case "C02":
 		genC02(w, r, tier)
 		genC02Long(w, r, tier)
@@ -97,7 +103,9 @@ func gen(prop, tier string, r *Rng, out *bufio.Writer, st *Stats) {
 		genC05Long(w, r, tier)
 		genF2F(g, r, tier)
 		genHugeConv(g, r, tier)
-		genGiant(g, "C05")
+		if tier == "thorough" {
+			genGiant(g, "C05")
+		}
 	case "C06":
 		genQuant(g, r, tier, false)
 		if tier == "thorough" && os.Getenv("VERIF_NO_SWEEP32") == "" {
@@ -130,6 +138,7 @@ func gen(prop, tier string, r *Rng, out *bufio.Writer, st *Stats) {
 		genBigRef(g, r, tier)
 		genHugeAppend(g, r, tier)
 		genGrowMany(g, r, tier)
+		genStripedWide(w, r, tier)
 	case "C13":
 		genC13(w, r, tier)
 		genManyAllocs(g, r, tier)
